@@ -1,10 +1,10 @@
 package rules
 
 import (
-	"sort"
 	"fmt"
 	"go/token"
 	"go/types"
+	"sort"
 	"strings"
 
 	"golang.org/x/tools/go/ssa"
@@ -199,13 +199,25 @@ func c17Order(c *eng.Ctx, r *eng.Report) {
 func c17UnmarkAs(c *eng.Ctx, r *eng.Report, rule string) {
 	um := c.Func("service", "(*TxPool).UnMarkExecuted")
 	if r.Anchor(um != nil, rule, "(*TxPool).UnMarkExecuted") {
-		var dels []*ssa.Call
-		for _, s := range eng.Sites(um) {
-			if call, ok := s.Instr.(*ssa.Call); ok && call.Call.IsInvoke() && call.Call.Method.Name() == "Delete" && strings.HasSuffix(eng.Desc(call.Call.Value), ".executed") {
-				dels = append(dels, call)
+		delsOf := func(fn *ssa.Function) []*ssa.Call {
+			var dels []*ssa.Call
+			for _, s := range eng.Sites(fn) {
+				if call, ok := s.Instr.(*ssa.Call); ok && call.Call.IsInvoke() && call.Call.Method.Name() == "Delete" && strings.HasSuffix(eng.Desc(call.Call.Value), ".executed") {
+					dels = append(dels, call)
+				}
+			}
+			return dels
+		}
+		dels := delsOf(um)
+		adds := callsNamed(um, "(*service.TxPool).add")
+		if len(dels) == 0 && len(adds) == 0 {
+			// the per-transaction pair extracted into a private helper of the pool
+			for _, s := range eng.Sites(um) {
+				if h := s.Static(); h != nil && h.Pkg == um.Pkg && h.Blocks != nil && !token.IsExported(h.Name()) && len(delsOf(h)) > 0 {
+					dels, adds = delsOf(h), callsNamed(h, "(*service.TxPool).add")
+				}
 			}
 		}
-		adds := callsNamed(um, "(*service.TxPool).add")
 		ok := len(dels) == 1 && len(adds) == 1 && dels[0].Block() == adds[0].Block() && eng.Dominates(dels[0], adds[0])
 		if ok {
 			// both use the same transaction
@@ -323,6 +335,33 @@ func c17Pack(c *eng.Ctx, r *eng.Report) {
 			guard = iff
 		}
 	}
+	// the per-transaction nonce test extracted into a boolean helper of the package ("may this one be packed?"):
+	// the two clauses are decided inside the helper, and the helper's verdict is tied to the append here
+	if guard == nil {
+		for _, b := range cn.Blocks {
+			iff, isIf := b.Instrs[len(b.Instrs)-1].(*ssa.If)
+			if !isIf {
+				continue
+			}
+			call, isCall := iff.Cond.(*ssa.Call)
+			if !isCall {
+				continue
+			}
+			h := call.Call.StaticCallee()
+			if h == nil || h.Pkg != cn.Pkg || h.Blocks == nil || loopHeaderOf(call) == nil || loopHeaderOf(call) != loopHeaderOf(appendCall) {
+				continue
+			}
+			if gOK, aOK, found := c17AdmitHelper(h); found {
+				hdr := loopHeaderOf(appendCall)
+				refusedSkips := !reachWithin(b.Succs[1], appendCall.Block(), hdr)
+				admittedPacked := !blockEscapesWithout(b.Succs[0], appendCall.Block(), hdr)
+				r.Check(gOK && refusedSkips, rule, "(*service.TxPool).checkNonce:nonce-guard", c.Pos(call.Pos()), "a transaction whose nonce is ahead of the sender's expected nonce is refused by "+eng.FuncName(h)+" and skipped", fmt.Sprintf("%s answers false on `expectedNonce < tx.Nonce`=%v, a refused transaction is skipped=%v: a transaction ahead of its sender's next nonce is packed", eng.FuncName(h), gOK, refusedSkips))
+				r.Check(aOK && admittedPacked, rule, "(*service.TxPool).checkNonce:advance-implies-packed", c.Pos(call.Pos()), "every transaction that advances its sender's expected nonce is admitted and packed", fmt.Sprintf("%s answers true after advancing the expected nonce=%v, an admitted transaction is always appended=%v: later transactions of that sender are then packed ahead of the state nonce", eng.FuncName(h), aOK, admittedPacked))
+				c17Limit(c, r, cn, appendCall, rule)
+				return
+			}
+		}
+	}
 	ok := guard != nil
 	why := "no `expectedNonce < tx.Nonce` test found"
 	if ok {
@@ -358,11 +397,12 @@ func c17Pack(c *eng.Ctx, r *eng.Report) {
 		}
 	}
 	r.Check(ok, rule, "(*service.TxPool).checkNonce:advance-implies-packed", c.Pos(cn.Pos()), "every transaction that advances its sender's expected nonce is packed", why)
-	// packed count bound inside the walk
+	c17Limit(c, r, cn, appendCall, rule)
+}
+
+// c17Limit: packed count bound inside the walk.
+func c17Limit(c *eng.Ctx, r *eng.Report, cn *ssa.Function, appendCall *ssa.Call, rule string) {
 	okB := false
-	for _, cd := range eng.CondsAt(appendCall) {
-		_ = cd
-	}
 	for _, b := range cn.Blocks {
 		iff, isI := b.Instrs[len(b.Instrs)-1].(*ssa.If)
 		if !isI {
@@ -1039,4 +1079,86 @@ func c17LockOrder(c *eng.Ctx, r *eng.Report) {
 	if bad == 0 {
 		r.Pass(rule, "lock-order:acyclic", "", fmt.Sprintf("%d held-while-acquiring pair(s) in package service, no pair in both orders", len(keys)))
 	}
+}
+
+// blockEscapesWithout: from block from, can the loop header (next iteration) or
+// a return be reached without entering block must?
+func blockEscapesWithout(from, must, hdr *ssa.BasicBlock) bool {
+	seen := map[*ssa.BasicBlock]bool{}
+	q := []*ssa.BasicBlock{from}
+	for len(q) > 0 {
+		b := q[0]
+		q = q[1:]
+		if b == must || seen[b] {
+			continue
+		}
+		seen[b] = true
+		if b == hdr {
+			return true
+		}
+		if _, isRet := b.Instrs[len(b.Instrs)-1].(*ssa.Return); isRet {
+			return true
+		}
+		q = append(q, b.Succs...)
+	}
+	return false
+}
+
+// c17AdmitHelper decides the two nonce clauses inside a boolean helper: every
+// return reachable from the true edge of `expected < tx.Nonce` answers false,
+// and every return reachable after `nonceMap[source] = expected + 1` answers true.
+func c17AdmitHelper(h *ssa.Function) (guardOK, advanceOK, found bool) {
+	res := h.Signature.Results()
+	if res.Len() != 1 || res.At(0).Type().String() != "bool" {
+		return
+	}
+	allReturn := func(from *ssa.BasicBlock, want string) bool {
+		seen := map[*ssa.BasicBlock]bool{}
+		q := []*ssa.BasicBlock{from}
+		n := 0
+		for len(q) > 0 {
+			b := q[0]
+			q = q[1:]
+			if seen[b] {
+				continue
+			}
+			seen[b] = true
+			if ret, isRet := b.Instrs[len(b.Instrs)-1].(*ssa.Return); isRet {
+				k, isK := ret.Results[0].(*ssa.Const)
+				if !isK || k.Value == nil || k.Value.ExactString() != want {
+					return false
+				}
+				n++
+			}
+			q = append(q, b.Succs...)
+		}
+		return n > 0
+	}
+	for _, b := range h.Blocks {
+		if iff, ok := b.Instrs[len(b.Instrs)-1].(*ssa.If); ok {
+			if m, ok := eng.DecodeCmp(iff.Cond); ok && m.Op == token.LSS && strings.HasSuffix(eng.Desc(m.Y), ".Nonce") && !strings.HasSuffix(eng.Desc(m.X), ".Nonce") {
+				found = true
+				guardOK = allReturn(b.Succs[0], "false")
+			}
+		}
+		for _, in := range b.Instrs {
+			if mu, isMU := in.(*ssa.MapUpdate); isMU {
+				if bo, isB := mu.Value.(*ssa.BinOp); isB && bo.Op == token.ADD {
+					if k, isK := eng.ConstInt(bo.Y); isK && k == 1 {
+						found = true
+						advanceOK = len(b.Succs) > 0 || allReturn(b, "true")
+						for _, sc := range b.Succs {
+							if !allReturn(sc, "true") {
+								advanceOK = false
+							}
+						}
+						if len(b.Succs) == 0 {
+							advanceOK = allReturn(b, "true")
+						}
+					}
+				}
+			}
+		}
+	}
+	return
 }
